@@ -307,6 +307,81 @@ Lemma fast_asis_nil_refuted :
   compiles s = true /\ fast_asis s r = Some true /\ general s r = GB false /\ fast s r = None.
 Proof. vm_compute. repeat split; reflexivity. Qed.
 
+(* ------------------------------------------------------------------ round64Z is round-to-nearest-even *)
+Lemma pos_log2_nonneg : forall p, 0 <= pos_log2 p.
+Proof. induction p as [q IH|q IH|]; cbn [pos_log2]; lia. Qed.
+
+Lemma pos_log2_spec : forall p, 2 ^ pos_log2 p <= Zpos p < 2 ^ (pos_log2 p + 1).
+Proof.
+  induction p as [q IH|q IH|]; cbn [pos_log2].
+  - pose proof (pos_log2_nonneg q) as Hn.
+    replace (1 + pos_log2 q + 1) with (Z.succ (pos_log2 q + 1)) by lia.
+    replace (1 + pos_log2 q) with (Z.succ (pos_log2 q)) by lia.
+    rewrite !Z.pow_succ_r by lia. change (Z.pos q~1) with (2 * Z.pos q + 1).
+    set (A := 2 ^ pos_log2 q) in *. set (B := 2 ^ (pos_log2 q + 1)) in *. lia.
+  - pose proof (pos_log2_nonneg q) as Hn.
+    replace (1 + pos_log2 q + 1) with (Z.succ (pos_log2 q + 1)) by lia.
+    replace (1 + pos_log2 q) with (Z.succ (pos_log2 q)) by lia.
+    rewrite !Z.pow_succ_r by lia. change (Z.pos q~0) with (2 * Z.pos q).
+    set (A := 2 ^ pos_log2 q) in *. set (B := 2 ^ (pos_log2 q + 1)) in *. lia.
+  - change (2 ^ 0) with 1. change (2 ^ (0 + 1)) with 2. lia.
+Qed.
+
+Lemma zlog2_spec : forall a, 0 < a -> 2 ^ zlog2 a <= a < 2 ^ (zlog2 a + 1).
+Proof. intros a Ha. destruct a as [|p|p]; try lia. apply pos_log2_spec. Qed.
+
+(* round-to-nearest-even to 53 significant bits, for |z| >= 2^53:
+   with sh = floor(log2 |z|) - 52 >= 1, the result is +-q' * 2^sh where q' has at most 53 bits
+   (2^52 <= q' <= 2^53), is a nearest such multiple of 2^sh, and is even when z is half-way *)
+Theorem round64Z_nearest_even : forall z,
+  two53 <= Z.abs z ->
+  let a := Z.abs z in
+  let sh := zlog2 a - 52 in
+  1 <= sh /\
+  exists q', round64Z z = Z.sgn z * (q' * 2 ^ sh) /\
+             2 ^ 52 <= q' <= 2 ^ 53 /\
+             2 * Z.abs (q' * 2 ^ sh - a) <= 2 ^ sh /\
+             (2 * Z.abs (q' * 2 ^ sh - a) = 2 ^ sh -> Z.even q' = true).
+Proof.
+  intros z Hz a sh.
+  assert (Ha : 0 < a) by (unfold two53 in Hz; unfold a; lia).
+  pose proof (zlog2_spec a Ha) as [Hlo Hhi].
+  assert (Hl53 : 53 <= zlog2 a).
+  { destruct (Z_lt_le_dec (zlog2 a) 53) as [Hlt|]; [|assumption]. exfalso.
+    assert (2 ^ (zlog2 a + 1) <= 2 ^ 53) by (apply Z.pow_le_mono_r; lia).
+    unfold two53, a in *. change (2 ^ 53) with 9007199254740992 in H. lia. }
+  assert (Hsh : 1 <= sh) by (unfold sh; lia).
+  split; [exact Hsh|].
+  unfold round64Z. fold a.
+  destruct (a <? two53) eqn:E; [apply Z.ltb_lt in E; unfold a in *; lia|]. clear E.
+  fold sh.
+  set (P := 2 ^ sh). set (half := 2 ^ (sh - 1)).
+  assert (HP : P = 2 * half).
+  { unfold P, half. replace sh with (Z.succ (sh - 1)) at 1 by lia. rewrite Z.pow_succ_r by lia. reflexivity. }
+  assert (Hhalf : 0 < half) by (unfold half; apply Z.pow_pos_nonneg; lia).
+  assert (HPpos : 0 < P) by lia.
+  pose proof (Z.div_mod a P ltac:(lia)) as Hdm.
+  pose proof (Z.mod_pos_bound a P HPpos) as Hr.
+  set (q := a / P) in *. set (r := a mod P) in *.
+  assert (Hq : 2 ^ 52 <= q < 2 ^ 53).
+  { assert (E1 : 2 ^ zlog2 a = 2 ^ 52 * P).
+    { unfold P. rewrite <- Z.pow_add_r by lia. f_equal. unfold sh. lia. }
+    assert (E2 : 2 ^ (zlog2 a + 1) = 2 ^ 53 * P).
+    { unfold P. rewrite <- Z.pow_add_r by lia. f_equal. unfold sh. lia. }
+    rewrite E1 in Hlo. rewrite E2 in Hhi. split.
+    - apply Z.div_le_lower_bound; lia.
+    - apply Z.div_lt_upper_bound; lia. }
+  destruct (half <? r) eqn:E1.
+  - apply Z.ltb_lt in E1. exists (q + 1). repeat split; try lia.
+  - apply Z.ltb_ge in E1. destruct (r =? half) eqn:E2.
+    + apply Z.eqb_eq in E2. destruct (Z.odd q) eqn:Eo; cbn [andb].
+      * exists (q + 1). repeat split; try lia.
+        intros _. rewrite Z.add_1_r, Z.even_succ. exact Eo.
+      * exists q. repeat split; try lia.
+        intros _. rewrite <- Z.negb_odd, Eo. reflexivity.
+    + apply Z.eqb_neq in E2. cbn [andb]. exists q. repeat split; try lia.
+Qed.
+
 (* ------------------------------------------------------------------ round64Z against the kernel's binary64 *)
 From Coq Require Import Uint63 PrimFloat.
 Definition prim_agrees (z : Z) : bool :=
